@@ -400,6 +400,12 @@ func (lc *LocalClient) FullNamespacePath(path string) (string, error) {
 		log.Warn("Failed to join path: %s: %v", path, err)
 		return "", fmt.Errorf("failed to join path: %s: %w", path, err)
 	}
+	// "." (from "/", ".", "a/..", ...) is the storage directory itself, not a file in it:
+	// storagePath + FileSuffix would be a sibling of the storage directory.
+	if relPath == "." {
+		log.Warn("Failed to join path: %s: no file name", path)
+		return "", fmt.Errorf("failed to join path: %s: path names the storage directory, not a file in it", path)
+	}
 	fullPath := filepath.Join(lc.storagePath, relPath) + lc.FileSuffix
 	return fullPath, nil
 }
